@@ -160,8 +160,20 @@ def rules(rep, m):
         else:
             r3.ok()
     # loop pops every tag and frees it; final pattern cancel after the loop
-    loops = [x for x in walk(ca.body) if x["kind"] == "WhileStmt"]
-    okloop = len(loops) == 1 and "is_empty" in render(kids(loops[0])[0]) or (len(loops) == 1 and "->next" in cx.canon(kids(loops[0])[0]))
+    from ..vals import is_assert_stmt as _is_assert
+    loops = [x for x in walk(ca.body) if x["kind"] in ("WhileStmt", "ForStmt", "DoStmt") and not _is_assert(x)
+             and not (x["kind"] == "DoStmt" and int_value(kids(x)[1]) == 0)]
+    okloop = False
+    if len(loops) == 1:
+        lc_ = loops[0]
+        cnd_ = kids(lc_)[0] if lc_["kind"] == "WhileStmt" else kids(lc_)[2] if lc_["kind"] == "ForStmt" else kids(lc_)[1]
+        ctext = (render(cnd_) + " " + cx.canon(cnd_)) if cnd_.get("kind") != "Null" else ""
+        # runs until the list is empty: tests emptiness, the head link, or the node the pop returned
+        popped = {render(strip(kids(y)[0], casts=True)) for y in walk(lc_)
+                  if y["kind"] == "BinaryOperator" and y.get("opcode") == "=" and
+                  any(z["kind"] == "CallExpr" and callee_ref(z) == "cmi_slist_pop" for z in walk(kids(y)[1]))}
+        okloop = "is_empty" in ctext or "->next" in ctext or ("cmi_slist_pop(" in ctext and "NULL" in ctext) or \
+            any(re.sub(r"[()\s]", "", render(cnd_)) == "%s!=NULL" % nm_ for nm_ in popped)
     pops = [y for y in walk(loops[0]) if y["kind"] == "CallExpr" and callee_ref(y) == "cmi_slist_pop"] if loops else []
     frees = [y for y in walk(loops[0]) if y["kind"] == "CallExpr" and callee_ref(y) == "cmi_mempool_free"] if loops else []
     free_uncond = frees and not any(a["kind"] == "IfStmt" for a in inv.enclosing_chain(ca, frees[0])
